@@ -82,6 +82,20 @@ theorem ViewX.trans {s s1 s2 : St} (h1 : ViewX s s1) (h2 : ViewX s1 s2) : ViewX 
 
 theorem ViewX.of_disk {s s' : St} (h : s'.disk = s.disk) : ViewX s s' := fun q => by rw [h]
 
+/-- ... at every path outside the subtree at `q0` -/
+def FrameX (q0 : Path) (s s' : St) : Prop :=
+  ∀ q, q0.isSuffixOf q = false → (merge s'.disk q).dropX = (merge s.disk q).dropX
+
+theorem ViewX.frame {s s' : St} (h : ViewX s s') (q0 : Path) : FrameX q0 s s' := fun q _ => h q
+
+theorem FrameX.after {s s1 s2 : St} {q0 : Path} (h1 : ViewX s s1) (h2 : FrameX q0 s1 s2) : FrameX q0 s s2 :=
+  fun q hq => (h2 q hq).trans (h1 q)
+
+/-- the upper layer changed only inside the subtree at `q0` -/
+theorem FrameX.of_upper {s s' : St} {L L' : Layer} (hup : s.disk.upper = some L) (hd : s'.disk = s.disk.setLayer 0 L')
+    (q0 : Path) (hout : ∀ q, q0.isSuffixOf q = false → L' q = L q) : FrameX q0 s s' :=
+  fun q hq => by rw [merge_outside hup hd q0 hout q hq]
+
 /-- the node at `p` is a directory -/
 def DirNode (p : Path) (s : St) : Prop :=
   ∀ m0 r0 rest0, s.mem p = some m0 → m0.reals = r0 :: rest0 → (s.disk.statReal r0).isDir = true
